@@ -212,7 +212,8 @@ CHECKS = {
        "under 4 map orders; three repeated Example()/Check() calls on one object. GuessSchemaType under "
        "map orders is part of C20.",
   note="Map order and heap addresses are engine parameters / symbolic models, not Go's real randomisation; native confirmation of such "
-       "a counterexample repeats the case up to 200 times. OpenAPI text is outside.",
+       "a counterexample repeats the case up to 200 times. The OpenAPI Schema Object trees of the root and of every type are compared "
+       "structurally (zzverif.Same) across map orders, registration orders and repetition; the marshalled TEXT is outside.",
   ref="DESIGN.md §4 C09"),
  "C10": dict(
   text="Bounded symbolic model checking of result stability and history independence, claimed in part: sequences of 2/3 operations "
@@ -233,8 +234,11 @@ CHECKS = {
        "blanks before annotations, blanks between a rule name and its colon, blanks before the closing brace of a rule set, // vs "
        "/* */, quoted vs bare rule names, # line comments and ### block comments, leading and "
        "trailing blank lines - with @u registered or not: same verdict and error code; when accepted the same AST, example and "
-       "used-type list.",
-  note="The repository's test corpus under layout transforms is not replayed; OpenAPI output is outside.",
+       "used-type list. A second harness (package jsoac) takes the same pairs with notes from a fixed list, also with /* */ notes "
+       "that continue on the next line, and asserts that the OpenAPI Schema Object trees are structurally equal (engine intrinsic "
+       "zzverif.Same: every field of every node, descriptions included).",
+  note="The repository's test corpus under layout transforms is not replayed; the OpenAPI TEXT (json.Marshal) is outside, the "
+       "Schema Object structs it is marshalled from are inside.",
   ref="DESIGN.md §4 C14"),
 }
 
